@@ -139,7 +139,7 @@ theorem kind_mismatch_rejected (E : Env) (root g : Nat) (t : ATy) (v : CV) (h : 
   intro e he
   have hacc := (const_reject_iff E root g t v).mp ⟨e, he⟩
   rw [accepts.eq_def] at hacc
-  cases hc : t.cat <;> cases v <;> simp_all [kindAllowed, accScalar]
+  cases hc : t.cat <;> cases v <;> simp_all [kindAllowed, accScalar, accBool, accInt, accDouble, accStr, accEnum]
 
 /-- the tolerance: a number or a literal given for a container is accepted and becomes the empty container -/
 theorem container_tolerance (E : Env) (root g : Nat) (t : ATy) (v : CV) (ty : GoTy)
